@@ -186,6 +186,9 @@ Proof.
   destruct (forallb (fun x => noneb (a_default x)) a) eqn:F; [|discriminate]. inversion H; subst m.
   cbn [mem_member]. unfold method_member, plain_args. rewrite (args_back a F). reflexivity.
 Qed.
+Definition mem_of_enum (e : enum) : mem := ME (e_name e) (e_items e).
+Lemma mem_of_enum_ok : forall cn l, map (mem_member cn) (map mem_of_enum l) = map MEnum l.
+Proof. intros cn l. rewrite map_map. apply map_ext. intros [n its]. reflexivity. Qed.
 Lemma mem_of_prop_ok : forall cn x m, mem_of_prop x = Some m -> mem_member cn m = MVar x.
 Proof. intros cn [t n [d|]] m H; cbn [mem_of_prop] in H; [discriminate|]. inversion H; subst m. reflexivity. Qed.
 
@@ -194,12 +197,12 @@ Proof. intros A B C f l H. induction l as [|x l IH]; [reflexivity|]. cbn [map fl
 Lemma fm_none : forall A A' B (C : A -> B) (f : B -> list A') l, (forall x, f (C x) = []) -> flat_map f (map C l) = [].
 Proof. intros A A' B C f l H. induction l as [|x l IH]; [reflexivity|]. cbn [map flat_map]. rewrite H, IH. reflexivity. Qed.
 
-Lemma class_of_grouped : forall v n ks ms ps,
-  class_of_members v n (map MCtor ks ++ map MMethod ms ++ map MVar ps)
+Lemma class_of_grouped : forall v n ks ms ps es,
+  class_of_members v n (map MCtor ks ++ map MMethod ms ++ map MVar ps ++ map MEnum es)
   = {| c_tmpl := None; c_virtual := v; c_name := n; c_base := None; c_ctors := ks; c_methods := ms; c_statics := [];
-       c_dunders := []; c_props := ps; c_ops := []; c_enums := [] |}.
+       c_dunders := []; c_props := ps; c_ops := []; c_enums := es |}.
 Proof.
-  intros v n ks ms ps. unfold class_of_members. rewrite !flat_map_app.
+  intros v n ks ms ps es. unfold class_of_members. rewrite !flat_map_app.
   f_equal; repeat first [rewrite fm_same by (intros; reflexivity) | rewrite fm_none by (intros; reflexivity)];
     rewrite ?app_nil_r; reflexivity.
 Qed.
@@ -207,9 +210,9 @@ Qed.
 Definition item_of_class (c : class) : option item :=
   match c with
   | {| c_tmpl := None; c_virtual := v; c_name := n; c_base := None; c_ctors := ks; c_methods := ms; c_statics := [];
-       c_dunders := []; c_props := ps; c_ops := []; c_enums := [] |} =>
+       c_dunders := []; c_props := ps; c_ops := []; c_enums := es |} =>
     match omap (mem_of_ctor n) ks, omap mem_of_method ms, omap mem_of_prop ps with
-    | Some a, Some b, Some c => Some (IClass v n (a ++ b ++ c))
+    | Some a, Some b, Some c => Some (IClass v n (a ++ b ++ c ++ map mem_of_enum es))
     | _, _, _ => None
     end
   | _ => None
@@ -218,14 +221,14 @@ Lemma item_of_class_ok : forall c i, item_of_class c = Some i -> idecl i = DClas
 Proof.
   intros [tm v n ba ks ms ss ds ps os es] i H. cbn [item_of_class] in H.
   destruct tm; [discriminate|]. destruct ba; [discriminate|]. destruct ss; [|discriminate]. destruct ds; [|discriminate].
-  destruct os; [|discriminate]. destruct es; [|discriminate].
+  destruct os; [|discriminate].
   destruct (omap (mem_of_ctor n) ks) as [a|] eqn:Ea; [|discriminate].
   destruct (omap mem_of_method ms) as [b|] eqn:Eb; [|discriminate].
   destruct (omap mem_of_prop ps) as [c|] eqn:Ec; [|discriminate]. inversion H; subst i.
   cbn [idecl]. unfold class_decl. rewrite !map_app.
   rewrite (omap_map _ _ _ (mem_of_ctor n) (mem_member n) MCtor (mem_of_ctor_ok n) ks a Ea).
   rewrite (omap_map _ _ _ mem_of_method (mem_member n) MMethod (mem_of_method_ok n) ms b Eb).
-  rewrite (omap_map _ _ _ mem_of_prop (mem_member n) MVar (mem_of_prop_ok n) ps c Ec).
+  rewrite (omap_map _ _ _ mem_of_prop (mem_member n) MVar (mem_of_prop_ok n) ps c Ec), mem_of_enum_ok.
   rewrite class_of_grouped. reflexivity.
 Qed.
 
@@ -334,6 +337,18 @@ Proof.
   apply andb_true_iff in H. destruct H as [H H3]. apply andb_true_iff in H. destruct H as [H1 H2].
   exists h, rest'. split; [exact E|]. split; [split; [intros X; subst h; discriminate | exact H2] | apply name_okb_ok; exact H3].
 Qed.
+Definition wf_enumb (n : string) (l : list string) : bool :=
+  is_ident (chars_of n) && negb (memc (chars_of n) [chars_of "class"; chars_of "struct"]) && negb (nilb l)
+  && forallb (fun y => is_ident (chars_of y)) l.
+Lemma wf_enumb_ok : forall en el, wf_enumb en el = true -> wf_enum en el.
+Proof.
+  intros en el H. unfold wf_enumb in H.
+  apply andb_true_iff in H. destruct H as [H H4]. apply andb_true_iff in H. destruct H as [H H3].
+  apply andb_true_iff in H. destruct H as [H1 H2]. unfold wf_enum. split; [exact H1|].
+  unfold memc in H2. destruct (in_dec chars_dec (chars_of en) [chars_of "class"; chars_of "struct"]) as [i|ni]; [discriminate|].
+  split; [intros E; apply ni; left; symmetry; exact E|]. split; [intros E; apply ni; right; left; symmetry; exact E|].
+  split; [intros E; subst el; discriminate|]. apply Forall_forall. intros y Hy. rewrite forallb_forall in H4. apply H4. exact Hy.
+Qed.
 Definition not_operatorb (n : chars) : bool := noneb (prefix koperator n).
 Definition wf_memb (m : mem) : bool :=
   match m with
@@ -341,12 +356,13 @@ Definition wf_memb (m : mem) : bool :=
   | MM t n args _ => wf_tyb t && Nat.ltb (depth t) depth_fuel && head_memb t && is_ident (chars_of n) && not_operatorb (chars_of n)
                      && forallb wf_argb args
   | MP t n => wf_tyb t && Nat.ltb (depth t) depth_fuel && head_memb t && is_ident (chars_of n) && not_operatorb (chars_of n)
+  | ME n l => wf_enumb n l && not_operatorb (chars_of n)
   end.
 Lemma wf_argsb_ok : forall args, forallb wf_argb args = true -> Forall wf_arg args.
 Proof. intros args H. apply Forall_forall. intros a Ha. apply wf_argb_ok. rewrite forallb_forall in H. apply H. exact Ha. Qed.
 Lemma wf_memb_ok : forall m, wf_memb m = true -> wf_mem m.
 Proof.
-  intros [args | t n args cst | t n] H; cbn [wf_memb wf_mem] in *.
+  intros [args | t n args cst | t n | en el] H; cbn [wf_memb wf_mem] in *.
   - apply wf_argsb_ok. exact H.
   - apply andb_true_iff in H. destruct H as [H H6]. apply andb_true_iff in H. destruct H as [H H5]. apply andb_true_iff in H. destruct H as [H H4].
     apply andb_true_iff in H. destruct H as [H H3]. apply andb_true_iff in H. destruct H as [H1 H2]. apply Nat.ltb_lt in H2.
@@ -356,6 +372,8 @@ Proof.
     apply andb_true_iff in H. destruct H as [H H3]. apply andb_true_iff in H. destruct H as [H1 H2]. apply Nat.ltb_lt in H2.
     split; [apply (wf_tyb_ok _ _ H2 H1)|]. split; [exact H2|]. split; [apply head_memb_ok; exact H3|]. split; [exact H4|].
     unfold not_operatorb, not_operator in *. destruct (prefix koperator (chars_of n)); [discriminate | reflexivity].
+  - apply andb_true_iff in H. destruct H as [H1 H2]. split; [apply wf_enumb_ok; exact H1|].
+    unfold not_operatorb, not_operator in *. destruct (prefix koperator (chars_of en)); [discriminate | reflexivity].
 Qed.
 Definition wf_classb (n : string) (ms : list mem) : bool :=
   is_ident (chars_of n) && name_okb (chars_of n) && negb (memc (chars_of n) reserved) && forallb wf_memb ms.
@@ -375,8 +393,7 @@ Fixpoint wf_itemb (i : item) : bool :=
   | IInc h => path_okb_c (chars_of h)
   | ITypedef t n => wf_tyb t && Nat.ltb (depth t) depth_fuel && templ_topb t && is_ident (chars_of n)
   | IFnP a b n l => wf_tyb a && wf_tyb b && plainb a && plainb b && is_ident (chars_of n) && forallb wf_argb l
-  | IEnum n l => is_ident (chars_of n) && negb (memc (chars_of n) [chars_of "class"; chars_of "struct"]) && negb (nilb l)
-                 && forallb (fun y => is_ident (chars_of y)) l
+  | IEnum n l => wf_enumb n l
   | IClass _ n ms => wf_classb n ms
   | INs n b => is_ident (chars_of n) && forallb wf_itemb b
   end.
@@ -389,11 +406,7 @@ Proof.
     split; [apply (wf_tyb_ok _ _ H2 H1)|]. split; [exact H2|]. split; [apply head_okb_ok; exact H3 | exact H4].
   - exact H.
   - apply path_okb_c_ok. exact H.
-  - apply andb_true_iff in H. destruct H as [H H4]. apply andb_true_iff in H. destruct H as [H H3].
-    apply andb_true_iff in H. destruct H as [H1 H2]. unfold wf_enum. split; [exact H1|].
-    unfold memc in H2. destruct (in_dec chars_dec (chars_of en) [chars_of "class"; chars_of "struct"]) as [i|ni]; [discriminate|].
-    split; [intros E; apply ni; left; symmetry; exact E|]. split; [intros E; apply ni; right; left; symmetry; exact E|].
-    split; [intros E; subst el; discriminate|]. apply Forall_forall. intros y Hy. rewrite forallb_forall in H4. apply H4. exact Hy.
+  - apply wf_enumb_ok. exact H.
   - apply andb_true_iff in H. destruct H as [H H4]. apply andb_true_iff in H. destruct H as [H H3].
     apply andb_true_iff in H. destruct H as [H1 H2]. apply Nat.ltb_lt in H2.
     split; [apply (wf_tyb_ok _ _ H2 H1)|]. split; [exact H2|]. split; [apply templ_topb_ok; exact H3 | exact H4].
